@@ -122,8 +122,10 @@ def gen_single_programs(tier: str, rnd: random.Random) -> list[dict]:
     fills = ["random", "random", "small", "ff"] if quick else ["random"] * 6 + ["small", "small", "ff", "zero", "7f", "80"]
     for fam, tag, rated, refused in cfgs:
         for mode in fills:
-            for history in ("bulk_first", "single_first_then_battery", "two_polls"):
+            for history in ("bulk_first", "single_first_then_battery", "two_polls", "settings_first", "capability_loss"):
                 if fam == "DT" and history == "single_first_then_battery":
+                    continue
+                if history in ("settings_first", "capability_loss") and mode != fills[0] and quick:
                     continue
                 serial = serial_for(tag)
                 blocks = ET_BLOCKS if fam == "ET" else DT_BLOCKS
@@ -131,6 +133,13 @@ def gen_single_programs(tier: str, rnd: random.Random) -> list[dict]:
                 from .checks_decode import fill_regs
                 regs = fill_regs(fam, rnd, mode, [])
                 calls = [{"api": "read_device_info"}]
+                if history == "settings_first":
+                    # the other reading calls come first: ids that name both a sensor and a setting, the settings bulk read,
+                    # the getters
+                    calls += [{"api": "read_settings_data", "span": {"decode": False}}, {"api": "SHAREDSETTINGS"},
+                              {"api": "get_grid_export_limit"}]
+                    if fam == "ET":
+                        calls += [{"api": "get_operation_mode"}]
                 if history == "single_first_then_battery":
                     # first use of read_sensor while the battery is absent, then the battery appears
                     r0 = dict(regs)
@@ -148,27 +157,42 @@ def gen_single_programs(tier: str, rnd: random.Random) -> list[dict]:
                     calls += [{"api": "read_runtime_data", "span": {"decode": False}}, {"api": "table:sensors"},
                               {"api": "read_runtime_data", "span": {"decode": False}}, {"api": "table:sensors"}]
                 calls += [{"api": "ALLSENSORS"}]
+                if history == "capability_loss":
+                    # every optional block answered so far is refused from now on: two polls, then every listed id again
+                    calls += [{"sim": {"refused": [list(v) for v in blocks.values()], "silent": []}},
+                              {"api": "read_runtime_data", "span": {"decode": False, "full": False}}, {"api": "table:sensors"},
+                              {"api": "read_runtime_data", "span": {"decode": False}}, {"api": "table:sensors"}, {"api": "ALLSENSORS"}]
                 progs.append({"inv": [{"family": fam, "sim": sim, "retries": 0}], "calls": calls,
                               "cfg": {"fam": fam, "tag": tag, "history": history, "fill": mode}})
     return progs
 
 
 def expand_allsensors(prog: dict) -> dict:
-    """ALLSENSORS -> one read_sensor call per id listed by sensors() (ids taken from the live object in a dry run)."""
+    """ALLSENSORS -> one read_sensor call per id listed by sensors() at that point of the program; SHAREDSETTINGS -> one
+    read_setting call per id that names both a sensor and a setting at that point (ids taken from the live object in a dry
+    run of the program in which every marker is replaced by sensors() / settings())."""
     from .inv_driver import run_program
+    markers = ("ALLSENSORS", "SHAREDSETTINGS")
     dry = dict(prog)
-    dry["calls"] = [c for c in prog["calls"] if c.get("api") != "ALLSENSORS"] + [{"api": "sensors"}]
+    dry["calls"] = [x for c in prog["calls"] for x in ([{"api": "sensors"}, {"api": "settings"}] if c.get("api") in markers else [c])]
     tr = run_program(dry)
-    ids = []
+    lists = []
     for ev in tr["ev"]:
-        if ev["e"] == "RET" and ev.get("api") == "sensors" and ev.get("ok"):
-            ids = [x["s"] for x in ev["val"]["v"]]
+        if ev["e"] == "RET" and ev.get("api") in ("sensors", "settings"):
+            lists.append([x["s"] for x in ev["val"]["v"]] if ev.get("ok") else [])
     calls = []
     detail = {k: str(v) for k, v in prog.get("cfg", {}).items()}
+    k = 0
     for c in prog["calls"]:
-        if c.get("api") == "ALLSENSORS":
-            for i in dict.fromkeys(ids):
-                calls.append({"api": "read_sensor", "args": [i], "span": {"decode": False, "detail": detail}})
+        if c.get("api") in markers:
+            sens, sets = (lists[2 * k], lists[2 * k + 1]) if 2 * k + 1 < len(lists) else ([], [])
+            k += 1
+            if c["api"] == "ALLSENSORS":
+                for i in dict.fromkeys(sens):
+                    calls.append({"api": "read_sensor", "args": [i], "span": {"decode": False, "detail": detail}})
+            else:
+                for i in dict.fromkeys(x for x in sets if x in set(sens)):
+                    calls.append({"api": "read_setting", "args": [i], "span": {"decode": False, "pair": False, "detail": detail}})
         else:
             calls.append(c)
     out = dict(prog)
